@@ -171,6 +171,12 @@ func fineEmptyWhileDelivering(seed uint64) []lib.Case {
 		k1.held = map[int]string{}
 		cr.tag("empty-channel")
 		cr.after()
+		if variant == 0 {
+			// the consequence of K2: the RDY 1 consumer, its counter stuck at 1, starves
+			cr.opPub(1, 1, false, false)
+		} else {
+			cr.opDisconnect(k1)
+		}
 		// a timeout scan far in the future must find nothing to re-queue
 		cr.opScan(1, 1, true, scanAll)
 		k2 := cr.opConnect(false, false)
@@ -216,6 +222,12 @@ func fineEmptyWhileFinishing(seed uint64) []lib.Case {
 		k1.held = map[int]string{}
 		cr.tag("empty-channel")
 		cr.after()
+		if variant == 0 {
+			// the consequence of K1: with its counter at -1 the RDY 2 consumer is sent three
+			cr.opPub(1, 3, false, false)
+		} else {
+			cr.opDisconnect(k1)
+		}
 		k2 := cr.opConnect(false, false)
 		cr.opSub(k2, 1, 1)
 		cr.opRdy(k2, 5)
